@@ -6,7 +6,10 @@
    Answers are `None` (NoFilesError / None) or the index of a file in the listing `fs` of the fileset.
    `candidate fs q P t f` = f is a file of the fileset whose coverage meets [t - P, t + P) (P = one sub-directory
    period; everything when the template has no sub-directory placeholder), that passes the filters and is not
-   excluded.  The candidate set is the brute-force specification of FileSet.find (property C01). *)
+   excluded.  In the first part the candidate set is the brute-force specification of FileSet.find; the EXTENSION
+   below derives it from the algorithmic model of find (property C01: directory walk, look-back, pruning) on trees
+   (closest_end_to_end, composed_is_flat_model), fixes which of several allowed files the code returns
+   (search_first_in_order), states the edges of the window and the dispatch of fileset[...]. *)
 From Coq Require Import ZArith List Bool Ascii String.
 From Typhon Require Import Base.Calendar Base.CalendarProofs Model.C02_template Proofs.C02_template
   Model.C16_closest Proofs.C16_closest Model.C16_tree Proofs.C16_tree.
@@ -222,6 +225,14 @@ Theorem two_directories_away : forall c rest t w b ex f,
   tcand lay t w b ex f = false.
 Proof. exact two_directories_away_thm. Qed.
 
+(* t exactly on a directory boundary is nothing special: the directories enter the answer through their period
+   only -- two layouts of the same period, each inside C01's hypotheses for the tree, give the same answer *)
+Theorem layout_matters_through_period : forall lay1 lay2 fs w b ex t,
+  tree_hyps lay1 fs -> tree_hyps lay2 fs -> window_ok lay1 t -> window_ok lay2 t ->
+  Forall (fun '(a, b) => a <= b) ex -> tree_period lay1 = tree_period lay2 ->
+  tree_search lay1 fs w b ex t = tree_search lay2 fs w b ex t.
+Proof. exact layout_matters_through_period_thm. Qed.
+
 (* ... and when the tree holds no candidate the answer is the absence, never the nearest of the far files *)
 Theorem far_files_absent : forall lay fs w b ex t,
   tree_hyps lay fs -> window_ok lay t -> Forall (fun '(a, b) => a <= b) ex ->
@@ -279,7 +290,8 @@ Proof. exact getitem_meets_spec_thm. Qed.
    with [2] and [3] excluded by name the nearest is [1] (3 h) and not [4]; asked at 2018-03-03 00:00 with [2] and [4]
    excluded, [3] (22 h) is returned ([5] starts exactly at t + P: outside the semi-open window); asked at 03-06 12:00
    nothing is returned: [5] lies two directories away; with the exact-name short cut on [3] (get_filename(t) names it)
-   [3] is returned, and [2] when [3] is excluded.
+   [3] is returned, and [2] when [3] is excluded.  The same tree under /R/{year}/{doy}/ (same period) meets the
+   hypotheses too (layout_matters_through_period).
    T2: /R/{year}/{month}/..., P = 31 days (fixed), t = 2018-01-31 23:00: the only file starts 2018-03-01 00:00, TWO month
    directories later but 28 d 1 h away: it is inside the window and is returned; from 2018-01-28 23:00 it is not. *)
 Example nonvacuous_tree :
@@ -304,6 +316,7 @@ Example nonvacuous_tree :
   tcand lay (d 2018 3 6 12) [] [] [] (mk 5 (d 2018 3 4 0) (d 2018 3 4 1) false) = false /\
   tree_closest lay (fs false false false) (Some 3%nat) false [] [] [] (d 2018 3 2 0) = TFile 3 /\
   tree_closest lay (fs false true false) (Some 3%nat) false [] [] [] (d 2018 3 2 0) = TFile 2 /\
+  tree_hyps [F.CPat [F.FYear]; F.CPat [F.FMonth; F.FDay]] (fs false false false) /\
   tree_hyps lay2 fs2 /\ window_ok lay2 (d 2018 1 31 23) /\ tree_period lay2 = Some (31 * us_day) /\
   tree_search lay2 fs2 [] [] [] (d 2018 1 31 23) = TFile 0 /\
   tree_search lay2 fs2 [] [] [] (d 2018 1 28 23) = TNone /\
@@ -318,6 +331,7 @@ Proof.
   split; [apply Proofs.C16_tree.tree_hyps_decided; vm_compute; reflexivity|].
   split; [apply window_okb_iff; vm_compute; reflexivity|].
   do 7 (split; [vm_compute; reflexivity|]).
+  split; [apply Proofs.C16_tree.tree_hyps_decided; vm_compute; reflexivity|].
   split; [apply Proofs.C16_tree.tree_hyps_decided; vm_compute; reflexivity|].
   split; [apply window_okb_iff; vm_compute; reflexivity|].
   repeat split; vm_compute; reflexivity.
@@ -407,6 +421,7 @@ Print Assumptions window_ok_decided.
 Print Assumptions window_edges.
 Print Assumptions covering_is_candidate.
 Print Assumptions two_directories_away.
+Print Assumptions layout_matters_through_period.
 Print Assumptions far_files_absent.
 Print Assumptions getitem_datetime.
 Print Assumptions getitem_string.
